@@ -9,6 +9,7 @@ from __future__ import annotations
 import hashlib
 import itertools
 import random
+import zlib
 from concurrent.futures import ProcessPoolExecutor
 
 from . import _parser_enum as E
@@ -43,6 +44,22 @@ def _norm(x):
     if not hasattr(x, "_structure"):
         return {"root": _part(x)}
     return {k: _part(v) for k, v in x._structure.items()}
+
+def _isnum(x):
+    try:
+        float(x)
+        return True
+    except ValueError:
+        return False
+
+def _sorted(st):
+    def sp(p):
+        if isinstance(p, dict):
+            return p
+        if p and isinstance(p[0], list) and p[0] and isinstance(p[0][0], list):
+            return [sp(x) for x in p]
+        return sorted(p, key=lambda t: sum(1 for f in t if not _isnum(f)))
+    return {k: sp(v) for k, v in st.items()}
 
 def _outcome(fn):
     try:
@@ -290,9 +307,16 @@ def repro_parse(psrc, s, avail, expected_plain, allow_reject, via="get_terms"):
         + f"EXPECTED = {expected_plain!r}   # acceptable denotations per the documented algebra\n"
         + f"ALLOW_REJECT = {allow_reject!r}\n"
         + f"out = _outcome({call})\n"
-        + "ok = (out[0] == 'returned' and out[1] in EXPECTED) or (out[0] == 'raised' and out[2] and (ALLOW_REJECT or not EXPECTED))\n"
+        + "ok = (out[0] == 'returned' and (out[1] in EXPECTED or _sorted(out[1]) in EXPECTED)) or (out[0] == 'raised' and out[2] and (ALLOW_REJECT or not EXPECTED))\n"
         + "assert ok, (s, out, EXPECTED)\n"
     )
+
+
+def _sorted_or_none(st, literals_count):
+    try:
+        return E.sort_struct(st, literals_count)
+    except TypeError:  # nested structure in the result
+        return None
 
 
 def judge(acc, tree, s, tokens, intercept, flags, avail, ex, do_formula, clause_prefix="C01.sem", tags=None):
@@ -311,6 +335,8 @@ def judge(acc, tree, s, tokens, intercept, flags, avail, ex, do_formula, clause_
 
     def report(out, expected, via):
         exp_plain = [E.plain(x) for x in expected]
+        if via == "get_terms":
+            exp_plain += [x for x in (E.plain(y) for y in ex.post) if x not in exp_plain]
         if out[0] == "ok":
             if not expected:
                 clause, kind = "C01.outside.accepted", "accepted"
@@ -328,6 +354,10 @@ def judge(acc, tree, s, tokens, intercept, flags, avail, ex, do_formula, clause_
 
     out = observe(lambda: parser.get_terms(s, context=ctx))
     good = (out[0] == "ok" and out[1] in ex.pre) or (out[0] == "reject" and (ex.allow_reject or ex.must_reject))
+    if not good and out[0] == "ok":
+        # get_terms returns ordered sets before the degree sort; only the order that survives the
+        # (stable) degree sort is part of the documented result
+        good = any(_sorted_or_none(out[1], lc) in ex.post for lc in (False, True))
     if not good:
         report(out, ex.pre, "get_terms")
         return
@@ -424,11 +454,8 @@ def w_combo(args):
         for tree in E.gen_formulas(n, exps=(1, 2, 3), maxlabels=labels):
             for d1 in decorations(tree, runs, runs):
                 for d2 in decorations(d1, runs, runs):
-                    i += 1
-                    if i % nshards != shard:
-                        continue
                     s = E.show(d2)
-                    if s in seen:
+                    if zlib.crc32(s.encode()) % nshards != shard or s in seen:
                         continue
                     seen.add(s)
                     check_tree(acc, d2, opts)
@@ -558,6 +585,37 @@ def w_negative(args):
                     }
                     acc.fail(clause, cls, w, f"{s!r}: sign run {run!r} after {node[1]!r} must be rejected or read as the parity-collapsed sign on the following operand {exp_plain[:2]!r}; observed {got!r}")
     return ("sign-run-negative-space", acc.result())
+
+
+def w_unbalanced(args):
+    """Outside the grammar: one bracket / quote character of a well-formed formula removed."""
+    (nmax,) = args
+    acc = Acc()
+    seen = set()
+    for n in range(nmax + 1):
+        for base in E.gen_formulas(n, exps=(2,), maxlabels=2, unary_tilde=False):
+            variants = [base] + list(E.deco_par(base)) + list(E.deco_atoms(base, with_dot=False, with_zero_one=False))
+            for tree in variants:
+                tokens = E.to_tokens(tree)
+                for i, tok in enumerate(tokens):
+                    cuts = []
+                    if tok in ("(", ")"):
+                        cuts.append("")
+                    elif tok[0] in "`{" or (tok.endswith(")") and "(" in tok):
+                        cuts += [tok[:-1], tok[1:] if tok[0] in "`{" else tok.replace("(", "", 1)]
+                    for cut in cuts:
+                        s = "".join(tokens[:i] + [cut] + tokens[i + 1 :])
+                        if s in seen:
+                            continue
+                        seen.add(s)
+                        for intercept in (True, False):
+                            parser = get_parser(intercept)
+                            out = observe(lambda: parser.get_terms(s))
+                            acc.case((s, intercept), out[0] != "error", sample={"formula": s, "expected": "reject"})
+                            if out[0] == "ok":
+                                w = {"formula": s, "well_formed": "".join(tokens), "include_intercept": intercept, "observed": plain_actual(out[1]), "code": repro_parse(parser_src(intercept), s, None, [], True)}
+                                acc.fail("C01.outside.accepted", "unbalanced-quote-or-bracket", w, f"{s!r} (from {''.join(tokens)!r} by removing one bracket/quote character) was accepted as {plain_actual(out[1])!r}")
+    return ("unbalanced", acc.result())
 
 
 ALL_FLAGS = ("TWOSIDED", "MULTIPART", "MULTISTAGE")
@@ -866,6 +924,7 @@ DRIVERS = {
     ),
     "feature-flags": dict(rule="every base tree with <= 2 nodes x 8 feature-flag subsets x intercept: disabled ~ / | rejected, otherwise the reference semantics", exhaustive=True),
     "identities": dict(rule="documented identities a*b=a+b+a:b, a/b=a+a:b (a an atom), b %in% a = a/b, ^ = ** for all operand pairs from the pool of expressions with <= 1 node (+ empty-set and special operands), in 4 embedding contexts; (a+..)**n = all interactions up to order n", exhaustive=True),
+    "unbalanced": dict(rule="every formula with <= 2 nodes (labels a, b; + redundant parentheses, + quoted/call/brace atoms) with one bracket or quote character removed must be rejected", exhaustive=True),
     "spec-forms": dict(rule="string vs list of term strings vs lhs=/rhs= keywords vs dict for every base tree <= 2 nodes (+ special atoms <= 1 node); list of summands incl. repeats vs the sum string", exhaustive=True),
 }
 
@@ -876,6 +935,7 @@ def plan(ctx):
     tasks = []
     opts_small = {"formula": True, "formula_both": True, "spaced": True}
     opts_big = {"formula": True, "formula_both": th, "spaced": th, "all_avails": th}
+    tasks.append((w_powers, (opts_small,)))
     for n in (0, 1):
         tasks.append((w_base, (n, (1, 2, 3), True, 0, 1, opts_small)))
     for sh in range(8):
@@ -896,9 +956,8 @@ def plan(ctx):
     nc = 32
     for sh in range(nc):
         tasks.append((w_combo, (1, 2 if th else 1, 4 if th else 1, sh, nc, opts_big)))
-    tasks.append((w_powers, (opts_small,)))
     nr = 32
-    count = (200000 if th else 4000) // nr
+    count = (200000 if th else 3200) // nr
     for sh in range(nr):
         tasks.append((w_random, (seed * 1000 + sh, count, 4, 8, opts_big)))
     nn = 16
@@ -909,6 +968,7 @@ def plan(ctx):
     for sh in range(16):
         tasks.append((w_identities, (2 if th else 1, 3 if th else 2, sh, 16, 4 if th else 8)))
     tasks.append((w_power_identity, ()))
+    tasks.append((w_unbalanced, (2,)))
     for sh in range(8):
         tasks.append((w_specforms, (2, sh, 8)))
     return tasks
@@ -944,11 +1004,12 @@ def run_bounded(ctx):
         "decorated-trees": "base trees <= 2 nodes" + (" (+ 3 nodes, two labellings, runs <= 2)" if th else " (2 nodes: all-distinct, all-equal and first=last labellings)"),
         "decorated-pairs": "base trees <= 1 node" + ("" if th else ", all-equal labelling"),
         "powers": "see rule",
-        "random-trees": f"{200000 if th else 4000} trees, seed {ctx.seed}",
+        "random-trees": f"{200000 if th else 3200} trees, seed {ctx.seed}",
         "sign-run-negative-space": f"base trees <= 2 nodes, runs <= {3 if th else 2} (<= 3 for <= 1 node)",
         "feature-flags": "base trees <= 2 nodes" + ("" if th else " (2 nodes: three key labellings)"),
         "identities": f"operand pool: expressions <= {2 if th else 1} node(s)",
         "spec-forms": "base trees <= 2 nodes",
+        "unbalanced": "base trees <= 2 nodes",
     }
     order = list(DRIVERS)
     bs = {}
@@ -975,6 +1036,9 @@ def run_bounded(ctx):
         b.wall = _t.time() - b.t0
     if totals:
         ctx.notes.append({"C01 bounded failure counts (clause, cls) -> witnesses seen": {f"{k[0]} [{k[1]}]": v for k, v in sorted(totals.items())}})
+    if not ctx.explanation:
+        # only when no deductive module has described the run (vf/proofs is written separately)
+        ctx.explanation = "bounded stand-in only in this run: whole-parser functional correctness against an independent reference semantics is decided by exhaustive small-scope enumeration (bounded), not proved"
     ctx.assume(
         "A-C01-sem: the reference semantics encodes grammar.md as: '1 +' textually prepended to every right-hand part (a leading sign run joins it); "
         "0 == -1 textually; a run of signs collapses by parity; ** as the n-fold product (either lexicographic or iterated a*a; both accepted); "
